@@ -102,7 +102,7 @@ def error_cases(draw):
         "n": draw(st.integers(1, 4)),
         "repeat": draw(st.sampled_from([0, 0, 1, 2])),
         "wire": draw(wires), "ctx": draw(contexts), "sizes": draw(st.lists(st.integers(1, 40), max_size=4)),
-        "pad": draw(pads),
+        "pad": draw(pads), "client": draw(st.sampled_from(CLIENTS)),
     }
 
 
@@ -117,7 +117,7 @@ def success_cases(draw):
         "pos": draw(st.integers(0, 3)),
         "n": draw(st.integers(1, 4)),
         "wire": draw(wires), "ctx": draw(contexts), "sizes": draw(st.lists(st.integers(1, 40), max_size=4)),
-        "pad": draw(pads),
+        "pad": draw(pads), "client": draw(st.sampled_from(CLIENTS)),
     }
 
 
@@ -135,14 +135,22 @@ def code_grid(tier):
                 yield {"error": e, "v2": v2, "result": ABSENT, "id": 1, "path": path, "pos": code % 3, "n": 3, "repeat": code % 3}
 
 
+CLIENTS = ["default", "default", "default", "v1", "forced-v1", "forced-v2", "off", "off-forced"]
+JC_MEMBER = {"__jsonclass__": ["decimal.Decimal", ["1.5"]], "x": 1}
+
+
 def build_reply(case):
     reply = {"id": case["id"]}
+    off = case.get("client", "default").startswith("off") and case.get("path") != "cfe"
     if not is_absent(case["error"]):
         reply["error"] = case["error"]
+        if off and isinstance(case["error"], dict) and "data" in case["error"]:
+            # a client that switched class translation off is handed error data holding a '__jsonclass__' member: plain data
+            reply["error"] = dict(case["error"], data=[dict(JC_MEMBER), case["error"]["data"]])
     if case["v2"]:
         reply["jsonrpc"] = "2.0"
     if not is_absent(case["result"]):
-        reply["result"] = case["result"]
+        reply["result"] = {"held": dict(JC_MEMBER), "value": case["result"]} if off and case["result"] else case["result"]
     elif not case["v2"] and "error" in reply:
         reply["result"] = None
     return reply
@@ -166,7 +174,10 @@ def access(case, reply):
         parsed = json.loads(text)
         ret = J.check_for_errors(parsed)
         return ("cfe", ret, parsed)
-    cfg = Config()
+    client = case.get("client", "default")
+    cfg = {"default": Config, "v1": lambda: Config(version=1.0), "forced-v1": Config, "forced-v2": lambda: Config(version=1.0),
+           "off": lambda: Config(use_jsonclass=False), "off-forced": lambda: Config(use_jsonclass=False)}[client]()
+    forced = {"forced-v1": 1.0, "forced-v2": 2.0, "off-forced": 1.0}.get(client)
     wire = case.get("wire")
     ctx = case.get("ctx", "plain")
     if wire:
@@ -181,7 +192,7 @@ def access(case, reply):
         def set_reply(t):
             tr.reply = t
     ctor = {"X-Ctor": "c"} if ctx in ("ctor+block", "ctor-only", "nested") else None
-    proxy = J.ServerProxy("http://loopback/", transport=tr, config=cfg, headers=ctor)
+    proxy = J.ServerProxy("http://loopback/", transport=tr, config=cfg, headers=ctor, version=forced)
     blocks = {"plain": [], "ctor-only": [], "block": [{"X-One": "1"}], "ctor+block": [{"X-One": "1"}],
               "nested": [{"X-One": "1"}, {"X-Two": "2"}], "empty-block": [{}]}[ctx]
 
@@ -207,7 +218,7 @@ def access(case, reply):
     items = [{"jsonrpc": "2.0", "id": i, "result": ["ok", i]} for i in range(n)]
     items[pos] = json.loads(text) if case.get("pad") else reply
     set_reply(json.dumps(items, ensure_ascii=not case.get("pad")))
-    mc = J.MultiCall(proxy)
+    mc = J.MultiCall(proxy, cfg) if client != "default" and case.get("pos", 0) % 2 else J.MultiCall(proxy)
     for i in range(n):
         getattr(mc, "m%d" % i)(i)
     results = in_context(mc)
@@ -303,13 +314,13 @@ def oracle(case):
         elif not gen.strict_eq(value, reply["result"]):
             fail("C06/result-changed", "%s returned %r, expected %r" % (path, value, reply["result"]), reply)
         falsy = not reply["result"]
-        return Info(nt=falsy, classes=["success", path] + (["falsy-result"] if falsy else []),
+        return Info(nt=falsy, classes=["success", path, "client:" + case.get("client", "default")] + (["falsy-result"] if falsy else []),
                     sample={"reply": reply, "path": path})
     if not error:
         fail("C06/success-raised", "%s raised %r for a reply without error" % (path, exc), reply)
 
     nt = False
-    classes = ["error:" + shape, path]
+    classes = ["error:" + shape, path, "client:" + case.get("client", "default")]
     if isinstance(error, dict) and "code" in error:
         code = error["code"]
         # the statement fixes the message only when the error object has one: without a
